@@ -12,6 +12,18 @@ CLAIMED = {
         note="Trusted: CPython ast; path interpreter; wire-fragment evaluator; Client.close does not raise (decided by C06.R6).",
         technique="must-pass-through on exception edges + abstract wire-fragment evaluation + who-may-call",
     ),
+    "C08": dict(
+        category="other",
+        text="Lockset, single-hold atomicity of check-then-act, ownership-by-removal and no-re-entrancy decided on every path of every ObjectPool method, plus bracket/non-escape over all 24 PooledClient methods. These hold for every schedule because they are schedule-independent facts; internal-error freedom under interleavings beyond the lock discipline is not decided.",
+        note="Trusted: CPython ast; path interpreter; `with lock:` releases on every exit; lock_generator() yields a mutual-exclusion lock; snapshot properties used/free are read-only (table of two named exemptions).",
+        technique="lockset + atomicity + ownership typestate on a path interpreter; who-may-call / escape analysis",
+    ),
+    "C09": dict(
+        category="other",
+        text="Path rules on the pool bracket (exactly one release/destroy on each normal/ordinary-exception exit, destroy on failure), constant-argument rules at all 24 bracket sites and the inner-client constructor, typestate rules on get/release (idle-test direction in linear normal form, expired objects closed and never handed out, reuse before create, idle stamp refreshed on release), quit destroys on all exits. Numeric idle gaps are not decided.",
+        note="Trusted: CPython ast; path interpreter; release()/destroy() atomic for slot accounting (their internals are C08.R3).",
+        technique="must-pass-through / typestate on a path interpreter; constant-argument conformance",
+    ),
     "C10": dict(
         category="proof",
         text="The C01/C09 cleanup path rules with the ASYNC exception colour (BaseException raised at any call): every such exit after sendall passes Client.close and is not swallowed; every such exit of the pool bracket passes exactly one release/destroy; Client.close drops the socket even when interrupted. The handlers' shape is the whole property.",
